@@ -43,13 +43,25 @@ type step struct {
 	Replies int    `json:"replies"` // read this many replies after sending (burst mode)
 }
 
+// the text of the scripted plugin's error message: it must come back verbatim, whatever it contains
+const pluginErrText = "boom: the plugin's own text, disk 100% full %s %d %!x(MISSING) 50%"
+
 func b64(s string) string { return base64.RawStdEncoding.EncodeToString([]byte(s)) }
 
 var fileKey = []byte("0123456789abcdef")
 
 // message text for each symbol of the model's alphabet
 func msgText(m string) (string, bool) {
-	body := func(s string) string { return b64(s) + "\n" }
+	body := func(s string) string {
+		// canonical stanza body: 64-column lines, the last one shorter (empty if the encoding is a multiple of 64)
+		e := b64(s)
+		var b strings.Builder
+		for len(e) >= 64 {
+			b.WriteString(e[:64] + "\n")
+			e = e[64:]
+		}
+		return b.String() + e + "\n"
+	}
 	switch m {
 	case "rs_ok":
 		return "-> recipient-stanza 0 vtype arg1 arg2\n" + body("stanza body one"), true
@@ -82,7 +94,7 @@ func msgText(m string) (string, bool) {
 	case "fk_args2":
 		return "-> file-key 0 extra\n" + base64.RawStdEncoding.EncodeToString(fileKey) + "\n", true
 	case "error":
-		return "-> error internal\n" + body("boom: the plugin's own text"), true
+		return "-> error internal\n" + body(pluginErrText), true
 	case "done":
 		return "-> done\n\n", false
 	case "msg":
@@ -372,7 +384,7 @@ func runCaseMode(run *vk.Run, dir string, c *pcase, w *world.World, onlyCrash bo
 			bad("a plugin that yields no file key must make Unwrap report an incorrect identity (so other identities are tried); got %v", o.err)
 		}
 	case "err_plugin":
-		if o.err == nil || !strings.Contains(o.err.Error(), "boom: the plugin's own text") {
+		if o.err == nil || !strings.Contains(o.err.Error(), pluginErrText) {
 			bad("an error message must abort the call with the plugin's text; got %v", o.err)
 		} else if errors.Is(o.err, age.ErrIncorrectIdentity) {
 			bad("a plugin error is reported as an incorrect identity")
